@@ -99,4 +99,10 @@ theorem xrun_inv (t : CT) (o : Bool) (m : Mode) (l f : Bool) (ops : List Op) :
     · rw [(xstepT_cfg x op).1]; exact ht
     · rw [(xstepT_cfg x op).2]; exact ho
 
+/-- `select_port` gives port 0 exactly when there is no port at all -/
+theorem selectPort_zero (prefer : Bool) (port obfs : Nat) :
+    (selectPort prefer port obfs).1 = 0 ↔ port = 0 ∧ obfs = 0 := by
+  simp only [selectPort]
+  by_cases hp : port = 0 <;> by_cases ho : obfs = 0 <;> cases prefer <;> simp_all
+
 end AioslskVerif.PeerConnect
